@@ -1563,9 +1563,10 @@ class Crystal(object):
         # run through list to ensure that all k-points are inside the BZ
         Gmin = min(np.dot(G, G) for G in self.BZG)
         for k in kptfull:
-            if np.dot(k, k) >= Gmin:
+            # one pass is not always enough; every subtraction strictly shortens k, so this terminates
+            while np.dot(k, k) >= Gmin and any(np.dot(k, G) > np.dot(G, G)*(1 + 1e-12) for G in self.BZG):
                 for G in self.BZG:
-                    if np.dot(k, G) > np.dot(G, G):
+                    if np.dot(k, G) > np.dot(G, G)*(1 + 1e-12):
                         k -= 2. * G
         return kptfull
 
